@@ -263,9 +263,11 @@ def _symbolic_for(interp, s, frame, state, space):
         if s.orelse:
             interp.exec_body_single(s.orelse, frame)
         return
-    written = interp.loop_hints.get(key)
+    written = interp.loop_hints.get(key) or interp.loop_hints.get((frame.fname, "for", ast.unparse(s.iter)))
     if written is not None:
         return written(interp, s, frame, st, lo, hi, item_fn)
+    if getattr(item_fn, "guard", None) is not None:
+        raise EngineError("loop over a boolean-mask selection needs a written summary (guarded iteration space)")
     side_mark = len(st.side)
     modified = sorted(_assigned_names(s.body) | _assigned_names([ast.Assign(targets=[s.target], value=ast.Constant(0))]))
     target_names = _assigned_names([ast.Assign(targets=[s.target], value=ast.Constant(0))])
